@@ -546,7 +546,8 @@ class Gen:
             if kind in ("comp", "lam"):
                 segs = []
             quoted = kind in ("ann", "pann") and not sc.mod.future and rng.random() < 0.5
-            sc.sites.append(self.new_site(sc, kind, root, segs, quoted=quoted))
+            calls = rng.choice([0, 0, 0, 1, 1, 2]) if kind == "deco" else 0      # @e, @e(0), @e(0)(1)
+            sc.sites.append(self.new_site(sc, kind, root, segs, quoted=quoted, calls=calls))
         if sc.init is not None:
             params = [p for p in sc.init if p != "self"]
             for _ in range(rng.randint(1, 3)):
@@ -665,7 +666,7 @@ class Gen:
         elif k == "base":
             L = ["try:", f"    class c{i}({e}): pass", "except Exception: pass"]
         elif k == "deco":
-            L = ["try:", f"    @{e}", f"    def d{i}(*a): pass", "except Exception: pass"]
+            L = ["try:", f"    @{e}" + "".join(f"({c})" for c in range(s.get("calls", 0))), f"    def d{i}(*a): pass", "except Exception: pass"]
         elif k == "default":
             L = ["try:", f"    def f{i}(self=None, q={e}): pass", "except Exception: pass"]
         elif k == "pann":
@@ -1249,6 +1250,9 @@ def griffe_side(ctx, g, d, files):
             else:
                 ctx.tie_failure("harness", "site expression not found in the source text", {"site": s["id"], "kind": s["kind"]}, case)
             s["xs"].append(rec)
+        if s["kind"] == "deco":
+            queries.append(["deco", v, abstract_chain(true_scope), s["root"], s["segs"], s.get("calls", 0)])
+            meta.append(("deco", s, coll[s["scope"] + ".d" + str(s["id"])].decorators[0], None))
         if g.rebind:
             continue
         for expr in exprs:
@@ -1343,6 +1347,11 @@ def griffe_side(ctx, g, d, files):
             rec = s["g"][-1]
             rec["py"], rec["pycanon"], rec["tag"], rec["gaps"], rec["gap_fixed"] = mo[2], mo[5], mo[1], [mo[6], mo[7]], mo[8]
             paths.add(mo[5])
+        elif what == "deco":
+            ctx.observe("decorator_calls", s.get("calls", 0))
+            if mo != node.callable_path:
+                ctx.tie_failure("correspondence", "callable_path_v(model) vs Decorator.callable_path",
+                                {"model": mo, "impl": node.callable_path, "decorator": str(node.value), "scope": s["scope"]}, case)
         elif what == "site-attr":
             at = node
             impl = [at.canonical_path, [x.canonical_path for x in at.values]]
